@@ -195,7 +195,8 @@ def _inv1(x, k):
           rn.arr[t_] == P(x).arr[ri.arr[t_]], pos[ri.arr[t_]] == t_)),
           patterns=[ri.arr[t_], rn.arr[t_]]),
       sym.forall([i_], z3.Implies(z3.And(0 <= i_, i_ < k, x.a.args.arr[i_] == REQ), z3.And(
-          0 <= pos[i_], pos[i_] < ri.len, ri.arr[pos[i_]] == i_)), patterns=[pos[i_]]))
+          0 <= pos[i_], pos[i_] < ri.len, ri.arr[pos[i_]] == i_)),
+          patterns=[pos[i_], x.a.args.arr[i_]]))
 
 
 def _step1(ex, x, k):
@@ -229,7 +230,7 @@ def _inv2(x, k):
           patterns=[crk.arr[t_]]),
       sym.forall([s_], z3.Implies(z3.And(kwreq(x, s_), it.idx(s_) < k), z3.And(
           0 <= cpos[s_], cpos[s_] < crk.len, crk.arr[cpos[s_]] == s_)),
-          patterns=[cpos[s_]]))
+          patterns=[cpos[s_], x.a.kwargs.val[s_]]))
 
 
 def _step2(ex, x, k):
@@ -383,7 +384,8 @@ def _inv7d(x, k):
           rn.arr[t_] == P(x).arr[ri.arr[t_]], pos[ri.arr[t_]] == t_)),
           patterns=[ri.arr[t_], rn.arr[t_]]),
       sym.forall([i_], z3.Implies(is_req_pos(x, i_), z3.And(
-          0 <= pos[i_], pos[i_] < ri.len, ri.arr[pos[i_]] == i_)), patterns=[pos[i_]]),
+          0 <= pos[i_], pos[i_] < ri.len, ri.arr[pos[i_]] == i_)),
+          patterns=[pos[i_], x.a.args.arr[i_]]),
       P(x).len <= x.a.args.len)
 
 
